@@ -265,6 +265,7 @@ pub fn property() -> Property {
             Tier::Thorough => 1500.0,
         },
         info: || PropInfo {
+            floors: vec![],
             rule: "2/3 of the runs (server side): 1..4 real servers fill their tables from 5..70 scripted peers (private or public plan, secure/insecure mixes, ids clustered at a focus, peers with and without signed-peers support) through bootstrap and extra lookups; 5..40 raw read requests (find_node/get/get_peers/get_signed_peers; targets random, at/near the focus, equal or adjacent to member ids); every reply's node list must equal the harness's own secure-first/XOR selection from the table snapshot of the same step (segment-wise for find_node). 1/3 of the runs (lookup side) are the C07 scenario: shuffled node lists into the accumulator, reported list and write destinations checked against the harness's order. Non-trivial (server side) = a table held more than 20 entries; distinct = delivery-order hash. Not reached: take_until_secure for arbitrary (size estimate, subnets) parameters - only values real nodes compute occur".into(),
             assumptions: vec!["find_node replies are the signed-peers table's closest followed by the main table's closest, up to 20 (CHANGELOG 6.1.0)".into()],
         },
